@@ -42,7 +42,9 @@ Clauses(t, i) ==
     returns_last     |-> (e.e = "Return") => e.last,
     honest_flag      |-> (e.e = "Return" /\ e.flag) => e.gSmall,
     convex_succeeds  |-> (e.e = "Return" /\ tr.convex) => (e.flag /\ e.agree = "EQ"),
-    ends_with_return |-> (i = Len(tr.ev)) => e.e = "Return",
+    \* leaving the solver: a return, or (SPG only) the documented RuntimeError of the generalized Cauchy point search,
+    \* which is outside the contract -- but every iterate reported BEFORE it is still judged
+    ends_with_return |-> (i = Len(tr.ev)) => (e.e = "Return" \/ (e.e = "Raised" /\ e.cauchy)),
     \* mechanism (never a violation): the acceptance rule and the convergence-first exit
     drift_accept     |-> (e.e = "Trial" /\ ~e.conv /\ ~tr.incr) => (NextIsFreshReport(t, i) <=> Accepts(AsEnv(e))),
     drift_conv       |-> (e.e = "Trial" /\ e.conv) => (HasNext(t, i) /\ Ev(t, i + 1).e = "Report"
